@@ -3,6 +3,7 @@
 package main
 
 import (
+	"runtime/pprof"
 	"time"
 
 	"encoding/json"
@@ -82,7 +83,13 @@ func main() {
 	controls := flag.String("controls", "", "directory of the control packages (default <verif>/controls)")
 	quiet := flag.Bool("q", false, "do not print discharged obligations")
 	list := flag.Bool("list", false, "list implemented properties")
+	cpuprof := flag.String("cpuprofile", "", "write a CPU profile")
 	flag.Parse()
+	if *cpuprof != "" {
+		f, _ := os.Create(*cpuprof)
+		pprof.StartCPUProfile(f)
+		go func() { time.Sleep(40 * time.Second); pprof.StopCPUProfile(); f.Close(); os.Exit(3) }()
+	}
 	props.Register(func(id, level string, f func(*load.Prog, *report.Report)) { checks[id] = check{level, f} })
 	if *list {
 		var ids []string
@@ -95,15 +102,13 @@ func main() {
 		}
 		return
 	}
-	budget := 60 * time.Second
-	if v := os.Getenv("SVCHECK_BUDGET_S"); v != "" {
+	if v := os.Getenv("SVCHECK_TICKS"); v != "" {
 		var n int
 		fmt.Sscanf(v, "%d", &n)
 		if n > 0 {
-			budget = time.Duration(n) * time.Second
+			absint.TickLimit = n
 		}
 	}
-	absint.Deadline = time.Now().Add(budget)
 	c, ok := checks[*prop]
 	if !ok {
 		fmt.Fprintf(os.Stderr, "unknown property %q\n", *prop)
@@ -135,6 +140,7 @@ func main() {
 			return r.Finish()
 		}
 		c.run(p, r)
+		r.Analysed["algebra_ticks"] = absint.Ticks()
 		if *tier == "thorough" {
 			selfValidation(r, *prop, *verif)
 		}
